@@ -455,7 +455,8 @@ func c16DownloadDir(c *Ctx) {
 	info := f.Info()
 	stats := g.callNodes("os.Stat", "os.Lstat")
 	var statDir, statPartial = -1, -1
-	for id, call := range stats {
+	for _, id := range sortedKeys(stats) {
+		call := stats[id]
 		if len(call.Args) == 1 && c16IsPartial(c, f, call.Args[0]) {
 			statPartial = id
 		} else {
@@ -509,7 +510,14 @@ func c16DownloadDir(c *Ctx) {
 	// second can see "no marker" before the extraction starts and the directory
 	// while it is being filled.
 	r := g.reach([]int{g.Entry}, func(x int) bool { return x == statDir }, nil)
-	c.check("downloadDir.marker-read-after-directory", f.Name, g.pos(statPartial), !r[statPartial] || statPartial == statDir,
+	early := false
+	for _, id := range sortedKeys(stats) {
+		call := stats[id]
+		if id != statDir && len(call.Args) == 1 && c16IsPartial(c, f, call.Args[0]) && r[id] {
+			early = true
+		}
+	}
+	c.check("downloadDir.marker-read-after-directory", f.Name, g.pos(statPartial), !early,
 		"the lock-free availability test must stat the extraction directory before the .partial marker on every path (reverse of the writer's order: marker created, directory created, marker removed); with the marker read first a reader can report a directory that is still being extracted")
 	// the marker path checked here is the one Fetch writes: both originate
 	// from cachePath(_, "partial") (checked by c16IsPartial on both sides).
